@@ -22,12 +22,23 @@ CACHED = ["nodes_by_name", "links", "in_links", "links_by_name", "nodes_by_link"
           "origins_by_node", "destinations", "destinations_by_name", "destinations_by_node"]
 
 
+# "distinct": the nodes are called A, B, C;  "shared": node C carries the name "A" as well (two different node objects
+# may be given the same name by a user, exactly as the links L1 and L1b; they remain two nodes of the graph)
+NODE_NAMING = "distinct"
+
+
+def set_naming(naming):
+    global NODE_NAMING
+    assert naming in ("distinct", "shared")
+    NODE_NAMING = naming
+
+
 class Universe:
     def __init__(self):
         import sym_metanet as M
 
         self.M = M
-        self.nodes = {k: M.Node(name=k) for k in "ABC"}
+        self.nodes = {k: M.Node(name=("A" if (k == "C" and NODE_NAMING == "shared") else k)) for k in "ABC"}
         mk = lambda nm: M.Link(1, 2, 1.0, 180, 30, 100, 1.8, name=nm)
         self.links = {"L1": mk("L1"), "L2": mk("L2"), "L1b": mk("L1")}  # L1b: a different link object that carries the name "L1"
         self.origins = {"O1": M.Origin(name="O1"), "O2": M.MeteredOnRamp(2000, name="O2")}
